@@ -47,6 +47,8 @@ COMPRESSOR_ATTR = {"zlib": "vtkZLibDataCompressor", "lz4": "vtkLZ4DataCompressor
 ATTR_COMPRESSOR = {v: k for k, v in COMPRESSOR_ATTR.items()}
 VTP_SECTIONS = [("Verts", "POLY_VERTEX", "NumberOfVerts"), ("Lines", "POLY_LINE", "NumberOfLines"),
                 ("Polys", "POLYGON", "NumberOfPolys"), ("Strips", "TRIANGLE_STRIP", "NumberOfStrips")]
+VTP_TYPE_ID = {"Verts": 2, "Lines": 4, "Polys": 7, "Strips": 6}      # VTK ids of the four poly cell types
+VTP_ID_NAME = {2: "POLY_VERTEX", 4: "POLY_LINE", 7: "POLYGON", 6: "TRIANGLE_STRIP"}
 CODECS = ["zlib", "lz4", "lzma"] if HAVE_LZ4 else ["zlib", "lzma"]
 
 
@@ -273,6 +275,34 @@ def vtuw_line(ds) -> str:
     return " ".join(toks)
 
 
+def vtpw_line(ds) -> str:
+    """all four sections in file order (empty ones with zero rows) + the cell-data rows"""
+    toks = ["c05vtpw", str(len(VTP_SECTIONS))]
+    for s, _, _ in VTP_SECTIONS:
+        rows = ds["sections"].get(s, [])
+        toks += [str(VTP_TYPE_ID[s]), str(len(rows))]
+        for r in rows:
+            toks += [str(len(r))] + [str(i) for i in r]
+    toks.append(str(len(ds["cf"])))
+    n = ncells_of(ds)
+    for f in ds["cf"]:
+        rows = rows_of(unhx(f["le"]), n)
+        toks += [str(len(rows))] + [hx(r) for r in rows]
+    return " ".join(toks)
+
+
+def parse_vtp_arrs(s: str):
+    """t:count:conn:offs|…  -> {section name: (count, conn, offs)}"""
+    out = {}
+    if s == "-":
+        return out
+    id_sec = {v: k for k, v in VTP_TYPE_ID.items()}
+    for part in s.split("|"):
+        t, n, conn, offs = part.split(":")
+        out[id_sec[int(t)]] = (int(n), parse_nats(conn), parse_nats(offs))
+    return out
+
+
 # ------------------------------------------------------------------ XML wrapping (the only thing the harness writes)
 
 def float_text(bits: int, size: int) -> str:
@@ -289,8 +319,9 @@ def data_array_xml(a, storage: str, text: str, offset) -> str:
     return f"<DataArray {attrs}>\n{text}\n</DataArray>"
 
 
-def wrap_file(ds, cfg, arrs, xmls) -> bytes:
-    """arrs in document order with their rendered <DataArray> elements"""
+def wrap_file(ds, cfg, arrs, xmls, counts=None) -> bytes:
+    """arrs in document order with their rendered <DataArray> elements; counts = the NumberOf… attributes of a
+    .vtp as produced by the spec writer"""
     def sec(name):
         return "\n".join(x for a, x in zip(arrs, xmls) if a["sec"] == name)
     comp = f' compressor="{COMPRESSOR_ATTR[cfg["comp"]]}"' if cfg["comp"] else ""
@@ -303,8 +334,9 @@ def wrap_file(ds, cfg, arrs, xmls) -> bytes:
                 f'</Piece></UnstructuredGrid>')
         gtype = "UnstructuredGrid"
     else:
-        counts = " ".join(f'{attr}="{len(ds["sections"].get(s, []))}"' for s, _, attr in VTP_SECTIONS)
-        secs = "".join(f"<{s}>\n{sec(s)}\n</{s}>\n" for s, _, _ in VTP_SECTIONS if ds["sections"].get(s))
+        counts = counts or {s: len(ds["sections"].get(s, [])) for s, _, _ in VTP_SECTIONS}
+        secs = "".join(f"<{s}>\n{sec(s)}\n</{s}>\n" for s, _, _ in VTP_SECTIONS if counts.get(s, 0))
+        counts = " ".join(f'{attr}="{counts.get(s, 0)}"' for s, _, attr in VTP_SECTIONS)
         body = (f'<PolyData><Piece NumberOfPoints="{ds["npts"]}" {counts}>\n'
                 f'<PointData>\n{sec("PointData")}\n</PointData>\n<CellData>\n{sec("CellData")}\n</CellData>\n'
                 f'<Points>\n{sec("Points")}\n</Points>\n{secs}</Piece></PolyData>')
@@ -410,6 +442,8 @@ class Batch:
         for i, ds in enumerate(dss):
             if ds["kind"] == "vtu":
                 lines.append(vtuw_line(ds)); where.append(i)
+            elif ds["kind"] == "vtp":
+                lines.append(vtpw_line(ds)); where.append(i)
         reps = self.ctx.lean(lines) if lines else []
         res = [None] * len(dss)
         for i, r in zip(where, reps):
@@ -425,13 +459,14 @@ class Batch:
                     {"sec": "Cells", "name": "types", "type": ds["ttype"], "ncomp": 1, "le": pack_ints(types, ds["ttype"])}]
             return arrs
         arrs = []
-        for s, _, _ in VTP_SECTIONS:
-            rows = ds["sections"].get(s)
-            if rows:
-                flat = [i for r in rows for i in r]
-                offs = list(itertools.accumulate(len(r) for r in rows))
-                arrs.append({"sec": s, "name": "connectivity", "type": ds["ctype"], "ncomp": 1, "le": pack_ints(flat, ds["ctype"])})
-                arrs.append({"sec": s, "name": "offsets", "type": ds["otype"], "ncomp": 1, "le": pack_ints(offs, ds["otype"])})
+        if ds["kind"] == "vtp":
+            # the flat arrays and the NumberOf… attributes come from the spec writer (Spec.vtpArrays)
+            spec_arrs = parse_vtp_arrs(lay["arrs"])
+            for s, _, _ in VTP_SECTIONS:
+                n, flat, offs = spec_arrs.get(s, (0, [], []))
+                if n:
+                    arrs.append({"sec": s, "name": "connectivity", "type": ds["ctype"], "ncomp": 1, "le": pack_ints(flat, ds["ctype"])})
+                    arrs.append({"sec": s, "name": "offsets", "type": ds["otype"], "ncomp": 1, "le": pack_ints(offs, ds["otype"])})
         return arrs
 
     def run(self, cases, tags_of=None, on_result=None):
@@ -478,7 +513,7 @@ class Batch:
             for ai in groups["ascii"]:
                 a = arrs[ai]
                 k, sz = VTK[a["type"]]
-                lines.append(f"c05ascw {1 if k == 'i' else 0} {sz} {hx(a['le'])}")
+                lines.append(f"c05ascw {cfg['bo']} {1 if k == 'i' else 0} {sz} {hx(a['le'])}")
                 plan.append((ci, ("ascii", ai)))
             per_case.append(info)
         reps = ctx.lean(lines)
@@ -515,7 +550,10 @@ class Batch:
                     offsets[ai] = len(appendix)
                     appendix += info["enc"][ai]
                     xmls.append(data_array_xml(a, st, "", offsets[ai]))
-            head = wrap_file(ds, cfg, arrs, xmls)
+            counts = None
+            if ds["kind"] == "vtp":
+                counts = {sec: n for sec, (n, _, _) in parse_vtp_arrs(lays[ds_index[id(ds)]]["arrs"]).items()}
+            head = wrap_file(ds, cfg, arrs, xmls, counts)
             content = finish_file(head, cfg, bytes(appendix) if info["groups"]["appended"] else None)
             self.n += 1
             path = os.path.join(self.tmp, f"c{self.n}.{ds['kind']}")
@@ -572,18 +610,13 @@ class Batch:
             if not ds["cf"]:
                 cds = []
             return layout, cds
-        layout, ranges, start = [], [], 0
-        for s, tn, _ in VTP_SECTIONS:
-            rows = ds["sections"].get(s)
-            if rows:
-                layout.append((tn, rows, list(range(start, start + len(rows)))))
-                ranges.append((tn, start, start + len(rows)))
-                start += len(rows)
-        cds = []
-        for f in ds["cf"]:
-            rows = rows_of(unhx(f["le"]), start)
-            cds.append([(tn, rows[a:b]) for tn, a, b in ranges])
-        return layout, cds
+        if ds["kind"] == "vtp":
+            # Spec.vtpContent / Spec.vtpCellDataContent
+            layout = [(VTP_ID_NAME[t], rows, idxs) for t, rows, idxs in parse_layout(lay["spec"])]
+            cds = [] if lay["cdspec"] == "-" or not ds["cf"] else \
+                [[(VTP_ID_NAME[t], rows) for t, rows in parse_cd(s)] for s in lay["cdspec"].split(",")]
+            return layout, cds
+        return [], []
 
     def compare(self, ds, cfg, info, lay, tags):
         ctx = self.ctx
@@ -611,10 +644,10 @@ class Batch:
                 model_ok = False
                 ctx.inconsistent({"cfg": cfg, "array": n, "len": len(a["le"])}, mv[:80], hx(a["le"])[:80])
         layout, cds = self.logical(ds, lay)
-        if ds["kind"] == "vtu":
+        if ds["kind"] in ("vtu", "vtp"):
             if lay["model"] != lay["spec"] or lay["cdmodel"] != lay["cdspec"]:
                 model_ok = False
-                ctx.inconsistent({"cells": ds["cells"]}, lay["model"], lay["spec"])
+                ctx.inconsistent({"cells": ds.get("cells", ds.get("sections"))}, lay["model"], lay["spec"])
         expected = obs_logical(ds, logical_bytes, layout, cds)
         impl = obs_impl(info["path"])
         d = diff_obs(impl, expected)
@@ -833,7 +866,7 @@ def model_read_elements(ctx, root, appendix, app_b64, elements):
                 ints = np.frombuffer(vals.tobytes(), dtype=f"<u{sz}").tolist()
             else:
                 ints = [int(t) for t in toks]
-            lines.append(f"c05ascr {sz} {len(ints)} " + " ".join(str(v) for v in ints)); where.append((i, "asc"))
+            lines.append(f"c05ascr {bo} {sz} {len(ints)} " + " ".join(str(v) for v in ints)); where.append((i, "asc"))
         else:
             b64 = True if fmt == "binary" else app_b64
             data = (e.text or "").strip().encode("ascii") if fmt == "binary" else appendix
@@ -961,26 +994,34 @@ def check_shipped(ctx):
             pts["shape"] = [pts["shape"][0] * (pts["shape"][1] if len(pts["shape"]) > 1 else 1) // 3, 3]
             if impl["points"] != pts:
                 diffs.append("points")
-            j, sizes, secnames = 1, [], []
+            # the whole of VTPReader._make_mesh through Fc.vtpLayout: count attributes + per-section arrays
+            j, toks, total = 1, ["c05vtpl", str(len(VTP_SECTIONS))], 0
             for s, tn, attr in VTP_SECTIONS:
-                if int(piece.attrib.get(attr, "0")) > 0:
+                cnt = int(piece.attrib.get(attr, "0"))
+                conn, offs = [], []
+                if cnt > 0:
                     conn, offs = ints(mesh_elems[j], mm[j]), ints(mesh_elems[j + 1], mm[j + 1])
                     j += 2
-                    r = ctx.lean([f"c05vtp {len(conn)} {' '.join(map(str, conn))} {len(offs)} {' '.join(map(str, offs))}"
-                                  .replace("  ", " ")])[0]
-                    rows = [] if r["model"] == "-" else [parse_nats(x) for x in r["model"].split(";")]
-                    if impl["cells"].get(tn) != rows:
-                        diffs.append("cells:" + tn)
-                    sizes.append(len(offs)); secnames.append(tn)
-            r = ctx.lean([f"c05vtpidx {len(sizes)} {' '.join(map(str, sizes))}".strip()])[0]
-            ranges = [] if r["model"] == "-" else [parse_nats(x) for x in r["model"].split(";")]
+                total += cnt
+                toks += [str(VTP_TYPE_ID[s]), str(cnt), str(len(conn))] + [str(i) for i in conn] + \
+                        [str(len(offs))] + [str(i) for i in offs]
+            toks.append(str(len(cd)))
             for e, m in zip(cd, cdm):
-                rows = rows_of(m, sum(sizes))
-                for tn, idxs in zip(secnames, ranges):
-                    want = logical_arr(b"".join(rows[i] for i in idxs), e.attrib["type"], len(idxs),
-                                       int(e.attrib.get("NumberOfComponents", 1)))
-                    if impl["cf"].get(e.attrib["Name"] + "@" + tn) != want:
-                        diffs.append("cf:" + e.attrib["Name"] + "@" + tn)
+                rows = rows_of(m, total)
+                toks += [str(len(rows))] + [hx(r_) for r_ in rows]
+            r = ctx.lean([" ".join(toks)])[0]
+            lay = {VTP_ID_NAME[t]: rows for t, rows, _ in parse_layout(r.get("model", "-"))}
+            if lay != impl["cells"]:
+                diffs.append("cells")
+            cds = [] if r.get("cd", "-") == "-" else r["cd"].split(",")
+            for e, s_ in zip(cd, cds):
+                if s_ == "E":
+                    diffs.append("cf-model-error:" + e.attrib["Name"])
+                    continue
+                for t, rows in parse_cd(s_):
+                    want = logical_arr(b"".join(rows), e.attrib["type"], len(rows), int(e.attrib.get("NumberOfComponents", 1)))
+                    if impl["cf"].get(e.attrib["Name"] + "@" + VTP_ID_NAME[t]) != want:
+                        diffs.append("cf:" + e.attrib["Name"] + "@" + VTP_ID_NAME[t])
         else:
             # structured: one cell type, identity index map
             for e, m in zip(cd, cdm):
@@ -1016,6 +1057,113 @@ def check_fallback(ctx, files):
         if impl != model:
             ctx.mismatch({"op": "fallback", "file": tag, "content": content.hex()}, impl, model,
                          what="_find_appendix_positions/_determine_encoding vs Fc.fallbackAppendix")
+
+
+RAW_MID = b'<AppendedData encoding="raw">\n_'
+RAW_TAIL = b"\n</AppendedData>\n</VTKFile>\n"
+
+
+def rawfile_line(parts) -> str:
+    return "c05rawfile " + " ".join(hx(parts[k]) for k in ("pre", "a1", "a2", "enc", "a3", "ws", "appendix", "post"))
+
+
+def rawfile_content(parts) -> bytes:
+    """harness-side copy of Spec.RawFile.content (compared with the driver's on every file)"""
+    return (parts["pre"] + b"<AppendedData" + parts["a1"] + b"encoding" + parts["a2"] + b'"' + parts["enc"] + b'"' +
+            parts["a3"] + b">" + parts["ws"] + b"_" + parts["appendix"] + b"</AppendedData>" + parts["post"])
+
+
+def decompose_generated(content: bytes, appendix: bytes):
+    """the pieces of a raw-appended file written by `finish_file` (Spec.RawFile)"""
+    n = len(content) - len(RAW_MID) - len(appendix) - len(RAW_TAIL)
+    parts = {"pre": content[:n], "a1": b" ", "a2": b"=", "enc": b"raw", "a3": b"", "ws": b"\n",
+             "appendix": appendix + b"\n", "post": b"\n</VTKFile>\n"}
+    return parts if n >= 0 and rawfile_content(parts) == content else None
+
+
+def synthetic_rawfiles(rng, count: int):
+    """raw-file decompositions in varying legal and illegal styles (only the fallback parser sees them)"""
+    out = []
+    filler = b'<?xml version="1.0"?>\n<VTKFile type="UnstructuredGrid" version="1.0" byte_order="LittleEndian">\n' \
+             b'<UnstructuredGrid><Piece NumberOfPoints="4" NumberOfCells="1">\n<PointData>\n' \
+             b'<DataArray type="Float64" Name="p_1" format="appended" offset="0"/>\n</PointData>\n</Piece></UnstructuredGrid>\n'
+    for _ in range(count):
+        pre = filler[:rng.choice([0, 30, 60, 68, 69, 70, 99, 100, 101, len(filler)])]
+        if rng.random() < 0.1:
+            pre += rng.choice([b"<!-- <AppendedData -->", b"<!-- </AppendedData> -->", b"<AppendedDat", b"</AppendedData"])
+        parts = {"pre": pre,
+                 "a1": rng.choice([b" ", b" ", b"\n", b"  ", b' foo="bar" ', b' encodin="x" ', b' a="encoding" ']),
+                 "a2": rng.choice([b"=", b"=", b" = ", b"= "]),
+                 "enc": rng.choice([b"raw", b"raw", b"base64", b"binary", b""]),
+                 "a3": rng.choice([b"", b"", b" ", b' x="1"', b" " * 70]),
+                 "ws": rng.choice([b"", b"\n", b"\n", b"\n  ", b" \t", b"<", b"_"]),
+                 "post": rng.choice([b"\n</VTKFile>\n", b"\n</VTKFile>\n", b"</VTKFile>", b"", b"\n<AppendedData/>\n</VTKFile>"])}
+        r = rng.random()
+        body = bytes(rng.getrandbits(8) for _ in range(rng.randint(0, 24)))
+        if r < 0.12:
+            body += rng.choice(RAW_TAG_NEEDLES) + bytes(rng.getrandbits(8) for _ in range(3))
+        elif r < 0.4:
+            body += rng.choice([b"_", b"<", b">", b'"', b"encoding", b"</AppendedData", b"<AppendedDat", b"<<AppendedDat",
+                                b"</Appended</AppendedData"]) + bytes(rng.getrandbits(8) for _ in range(3))
+        parts["appendix"] = body
+        out.append(parts)
+    return out
+
+
+def check_rawfiles(ctx, items):
+    """items = [(tag, parts)]: the file-level theorem C05_fallback_appendix at run time.
+    Inside HeadOk ∧ AppendixOk: model = spec (theorem; `inconsistent` otherwise) and implementation = spec;
+    everywhere: implementation = model (correspondence)."""
+    reps = ctx.lean([rawfile_line(p_) for _, p_ in items])
+    for (tag, parts), r in zip(items, reps):
+        content = rawfile_content(parts)
+        if r.get("content") != hx(content):
+            ctx.inconsistent({"op": "rawfile", "file": tag}, r.get("content", "?")[:80], hx(content)[:80])
+            continue
+        hyp = r.get("head") == "1" and r.get("app") == "1"
+        model = (r.get("model", "?"), r.get("enc", "?"))
+        spec = (r.get("spec", "?"), r.get("specenc", "?"))
+        impl = impl_fallback(content)
+        has_needle = any(n in parts["appendix"] for n in RAW_TAG_NEEDLES)
+        ctx.case(("rawfile", content), nontrivial=True,
+                 tags=["rawfile-" + tag.split(":")[0], "rawfile-hyp-" + ("in" if hyp else "out"),
+                       "rawfile-head" + r.get("head", "?") + "-app" + r.get("app", "?")])
+        if (r.get("app") == "0") != has_needle:
+            ctx.inconsistent({"op": "rawfile-class", "file": tag, "appendix": parts["appendix"].hex()},
+                             f"AppendixOk={r.get('app')}", f"needle in appendix={has_needle}")
+        if hyp and model != spec:
+            ctx.inconsistent({"op": "rawfile", "file": tag, "content": content.hex()}, model, spec)
+        if impl != model:
+            ctx.mismatch({"op": "rawfile", "file": tag, "content": content.hex()}, impl, model,
+                         what="_find_appendix_positions/_determine_encoding vs Fc.fallbackAppendix")
+        elif hyp and impl != spec:
+            ctx.violation({"op": "rawfile", "file": tag, "content": content.hex()}, impl, spec, cls=None,
+                          what="fallback parser does not return the appendix of a well-formed raw file")
+
+
+def check_numpy_text_parser(ctx):
+    """assumption behind Fc.asciiItemsWith: np.fromstring(text, dtype, sep=' ') stores native bytes whatever
+    byte order the dtype requests (so a byte-order qualified dtype reads ascii items swapped)"""
+    rng = ctx.rng
+    lines, want = [], []
+    for tname, (k, sz) in VTK.items():
+        if k == "f":
+            continue
+        for bo in ("le", "be"):
+            for uses in (0, 1):
+                bits = 8 * sz
+                vals = [rng.getrandbits(bits) - ((1 << (bits - 1)) if k == "i" else 0) for _ in range(4)] + [0, 1]
+                dt = np_dtype(tname, {"le": "<", "be": ">"}[bo]) if uses else np_dtype(tname, "=")
+                with warnings.catch_warnings():
+                    warnings.simplefilter("ignore")
+                    v = np.fromstring(" ".join(str(x) for x in vals), dtype=dt, sep=" ")
+                want.append(hx(v.astype(v.dtype.newbyteorder("<")).tobytes()))
+                lines.append(f"c05ascx {uses} {bo} {sz} {len(vals)} " + " ".join(str(x) for x in vals))
+    for ln, w, r in zip(lines, want, ctx.lean(lines)):
+        ctx.case(("numpy-text", ln), nontrivial=True, tags=["numpy-text-parser"])
+        if r.get("model") != w:
+            ctx.mismatch({"op": "numpy-text-parser", "line": ln}, w, r.get("model"),
+                         what="np.fromstring with a (non-)native dtype vs Fc.asciiItemsWith")
 
 
 # ------------------------------------------------------------------ adversarial: raw-appended fallback parser
@@ -1137,6 +1285,18 @@ def run(ctx):
                 if "raw" in name and os.path.splitext(name)[1] in (".vtu", ".vtp", ".vts"):
                     files.append(("shipped:" + name, open(os.path.join(d, name), "rb").read(), None))
         check_fallback(ctx, files)
+        # ---- file-level theorem C05_fallback_appendix: generated raw files decomposed into Spec.RawFile pieces,
+        #      plus synthetic decompositions in other header styles / with hostile bytes
+        items = []
+        for tag, content, app in batch.raw_files:
+            parts = decompose_generated(content, app)
+            if parts is None:
+                ctx.inconsistent({"op": "rawfile-decompose", "file": tag}, "finish_file layout", "Spec.RawFile.content")
+            else:
+                items.append(("generated:" + tag, parts))
+        items += [("synthetic:%d" % i, p_) for i, p_ in enumerate(synthetic_rawfiles(rng, ctx.scale(300, 6000)))]
+        check_rawfiles(ctx, items)
+        check_numpy_text_parser(ctx)
         # ---- shipped files
         check_shipped(ctx)
         # ---- shrink what was found
